@@ -20,7 +20,6 @@ package c08
 import (
 	"crypto/sha256"
 	"fmt"
-	"runtime/debug"
 	"sort"
 	"strings"
 	"sync"
@@ -199,6 +198,7 @@ type explorer struct {
 	ntriv  int64
 	evals  int64
 	sample int64
+	zoneIn int64
 	featN  [16]int64
 }
 
@@ -283,6 +283,7 @@ func (e *explorer) transition(hist []uint8, op int, idx int64) {
 	}
 	if res.pred.zone != "" {
 		cls += " zone:" + res.pred.zone
+		atomic.AddInt64(&e.zoneIn, 1)
 	}
 	if f := featString(res.pred.feats); f != "" {
 		cls += " [" + f + "]"
@@ -336,8 +337,6 @@ func run(r *core.Run) {
 	if r.Thorough() {
 		depth = 6
 	}
-	// runtimes are short-lived garbage and the live heap is tiny
-	defer debug.SetGCPercent(debug.SetGCPercent(800))
 	ops := alphabet(r.Thorough())
 	e := &explorer{r: r, ops: ops}
 
@@ -440,6 +439,7 @@ func run(r *core.Run) {
 	r.Extra("program_mode_loads", atomic.LoadInt64(&e.progs))
 	r.Extra("nontrivial_transitions", atomic.LoadInt64(&e.ntriv))
 	r.Extra("unspecified_zone_departures", atomic.LoadInt64(&e.zones))
+	r.Extra("unspecified_zone_transitions_matching_prediction", atomic.LoadInt64(&e.zoneIn))
 	fc := map[string]int64{}
 	for i, n := range featNames {
 		fc[n] = atomic.LoadInt64(&e.featN[i])
